@@ -118,3 +118,57 @@ Example C07_example_float :
   compatibility float_num true 1%float 1%float 0x1.999999999999ap-2%float c d = Ok 0x1.199999999999ap+2%float /\
   compatibility float_num false 1%float 1%float 0x1.999999999999ap-2%float d c = Ok 0x1.199999999999ap+2%float.
 Proof. vm_compute. repeat split; reflexivity. Qed.
+
+(* ============================================================================================ *)
+(* ==== added by agent "actbodies" (C07/C08: the distance tied to the source by translation) ==== *)
+(* ============================================================================================ *)
+(* gen/CompatBodies.v is regenerated on every run from the BODIES of Genome.compatLinear and     *)
+(* Genome.compatFast in neat/genetics/genome_compatibility.go: [gen_compat_linear] and            *)
+(* [gen_compat_fast], over the two gene lists (InnovationNum, MutationNum) and the three           *)
+(* coefficients.  Slice indexing and pointer dereference are explicit panics there, the index      *)
+(* loops are fuel-bounded recursions ([OutOfFuel] when exhausted).  The binary64 instance of the   *)
+(* model functions (the ones run against Go, and whose real-number instance the theorems above     *)
+(* are about: same polymorphic definition) returns exactly what the translated code returns: the   *)
+(* fuel suffices, no index is out of range, no nil pointer is dereferenced, for gene lists of any  *)
+(* length and any content (unsorted, duplicate numbers, NaN mutation numbers included).            *)
+(* For compatFast the model divides by float64(numMatching) behind a guard ([DivByZero]); the      *)
+(* guard cannot fire for a Go slice (length below 2^63), which is the one hypothesis below.        *)
+(* ============================================================================================ *)
+From NeatModel Require GoSlice CompatBodies CompatBodiesAgree.
+Local Close Scope R_scope.
+
+Theorem C07_model_is_the_translated_source :
+  (forall (dc ec mc : float) (a b : list (Z * float)),
+     CompatBodies.gen_compat_linear dc ec mc a b = compat_linear float_num dc ec mc a b) /\
+  (forall (dc ec mc : float) (a b : list (Z * float)),
+     compat_fast float_num dc ec mc a b = DivByZero \/
+     CompatBodies.gen_compat_fast dc ec mc a b = compat_fast float_num dc ec mc a b) /\
+  (forall (dc ec mc : float) (a b : list (Z * float)),
+     (Z.of_nat (length a) < 2 ^ 63)%Z ->
+     CompatBodies.gen_compat_fast dc ec mc a b = compat_fast float_num dc ec mc a b) /\
+  (forall (linear : bool) (dc ec mc : float) (a b : list (Z * float)),
+     (Z.of_nat (length a) < 2 ^ 63)%Z ->
+     (if linear then CompatBodies.gen_compat_linear dc ec mc a b else CompatBodies.gen_compat_fast dc ec mc a b) =
+     Ok (compat_float linear dc ec mc a b)).
+Proof.
+  exact (conj CompatBodiesAgree.gen_compat_linear_agrees
+        (conj CompatBodiesAgree.gen_compat_fast_agrees_or_guard
+        (conj CompatBodiesAgree.gen_compat_fast_agrees CompatBodiesAgree.gen_compat_returns_compat_float))).
+Qed.
+Print Assumptions C07_model_is_the_translated_source.
+
+(* the translated code on the witnesses of C07_example_float, and its panic / fuel values are real values:
+   an index loop started outside the slice panics, a loop given too little fuel says so *)
+Example C07_example_translated :
+  let a := [(1%Z, 1.5%float); (3%Z, (-0x1p-1)%float)] in let b := [(2%Z, 0%float); (4%Z, 1%float)] in
+  let c := [(1%Z, 1%float); (2%Z, 1%float); (5%Z, 1%float); (6%Z, 1%float)] in
+  let d := [(1%Z, 2%float); (3%Z, 1%float)] in
+  CompatBodies.gen_compat_linear 1%float 1%float 0x1.999999999999ap-2%float a b = Ok 4%float /\
+  CompatBodies.gen_compat_fast 1%float 1%float 0x1.999999999999ap-2%float a b = Ok 4%float /\
+  CompatBodies.gen_compat_linear 1%float 1%float 0x1.999999999999ap-2%float c d = Ok 0x1.199999999999ap+2%float /\
+  CompatBodies.gen_compat_fast 1%float 1%float 0x1.999999999999ap-2%float d c = Ok 0x1.199999999999ap+2%float /\
+  GoSlice.go_index a 2%Z = GoPanic GoSlice.panic_index_out_of_range /\
+  GoSlice.go_index a (-1)%Z = GoPanic GoSlice.panic_index_out_of_range /\
+  CompatBodies.gen_compat_linear_loop1 1%float 1%float 1%float c d 4%Z 2%Z 3%nat
+    (0%Z, 0%Z, 0%float, None, None, 0%float, 0%float, 0%float) = OutOfFuel.
+Proof. vm_compute. repeat split; reflexivity. Qed.
